@@ -404,9 +404,16 @@ def run_real(case) -> dict:
         return common.violation("C15", clause, fl + "-real-" + case["real"], cond, "", "", f"{detail}; case={case} outcome={out.brief()} {out.exc!r}")
 
     conn = world.conns[0] if world.conns else None
-    raws = rpce.split_stream(bytearray(b"".join(conn.tx_log))) if conn else []
-    pdus = [rpce.parse_pdu(r) for r in raws]
+    res0 = {"digest": world.digest() + out.brief(), "key": common.key_hash(case), "fired": {"real_ctx_runs": 1}, "probes": probes,
+            "vtime_ns": world.stats.get("vtime_ns", 0)}
+    try:
+        raws = rpce.split_stream(bytearray(b"".join(conn.tx_log))) if conn else []
+        pdus = [rpce.parse_pdu(r) for r in raws]
+    except Exception as e:  # noqa: BLE001
+        return dict(res0, viol=V("a", "client-pdu-undecodable", f"client wrote bytes ref.rpce cannot decode: {e!r}"))
     steps = [r for r in record if r[0] == "step"]
+    if len(steps) > 8 or world.stats.get("peer_gave_up"):
+        return dict(res0, viol=V("c", "handshake-does-not-end", f"{len(steps)} step() calls and {len(pdus)} PDUs without the handshake ending"))
     produced = [s[4] or b"" for s in steps]
     nonempty = [t_ for t_ in produced if t_]
     hs_pdus = [p for p in pdus if p["ptype"] in (rpce.BIND, rpce.ALTER_CONTEXT)]
